@@ -51,6 +51,7 @@ def tree_streams(check, prop):
             if f.startswith("tree_") and f.endswith(".ops") and d == prop:
                 sts.append(S("corpus:" + f, [l.strip() for l in open(os.path.join(cdir, f)) if l.strip()] + ["end"]))
     keys = [b"k%02d" % i for i in range(9)]
+    sts.append(S("null-data-values", TreeCheck.nulldata_ops(faults=(prop == "C15")) + ["end"]))
     if prop == "C15":
         # every allocating operation x failure at the 1st, 2nd, ... allocation (single and
         # "all from k on"), from a corpus of prefix states; full observation afterwards
